@@ -422,10 +422,10 @@ ET_OPTIONAL = ("battery", "battery2", "meter_ext2", "meter_ext", "mppt", "eco_v2
 DT_OPTIONAL = ("meter", "meter_version", "model")
 
 
-def make_inverter(family, tcp=False, T=1, R=0):
+def make_inverter(family, tcp=False, T=1, R=0, host="192.0.2.1"):
     import goodwe
     cls = {"ET": goodwe.ET, "DT": goodwe.DT, "ES": goodwe.ES}[family]
-    return cls("192.0.2.1", 502 if tcp else 8899, 0, T, R)
+    return cls(host, 502 if tcp else 8899, 0, T, R)
 
 
 def build_direct(cfg, default=0):
